@@ -238,6 +238,51 @@ type paramVec struct {
 	initial               bool // recorded before the first groundwater change of the run (parameters as set up by the input module)
 }
 
+// ------------------------------------------------------------------------------------------------------------------
+// reference run with a forced re-evaluation: the soil parameters are a function of the groundwater level alone, so a run
+// in which the daily groundwater update is made to re-evaluate them from scratch EVERY day must use, day by day, the same
+// parameters as the ordinary run. The reference run is the real model too; the monitor only overwrites the remembered
+// "level of yesterday" at the day_begin probe (directly in front of the update), so that the update always sees a change.
+// Whatever the ordinary run keeps, skips or restores wrongly (stale values, an update that is left out for small steps,
+// values of another horizon or of an earlier level) shows as a difference on that day, without the level having to recur.
+// ------------------------------------------------------------------------------------------------------------------
+type freshRec struct {
+	p   paramVec
+	izm int
+}
+
+type monForceFresh struct {
+	rec map[int]*freshRec
+}
+
+func (m *monForceFresh) Event(ev *hermes.VerifEvent, rc *RunCtx) {
+	g := ev.G
+	switch ev.Site {
+	case "day_begin":
+		if rc.Sc.GWMode != 1 {
+			g.GRW = -1e9 // yesterday's level "forgotten": today's level is a change, whatever it is
+		}
+	case "pre_evatra":
+		m.rec[ev.Zeit] = &freshRec{p: paramVec{W: g.W, WMIN: g.WMIN, PORGES: g.PORGES, WNOR: g.WNOR, WRED: g.WRED, zeit: ev.Zeit}, izm: g.IZM}
+	}
+}
+func (m *monForceFresh) Finish(rc *RunCtx) {}
+
+// withFreshReference runs the scenario once with the forced re-evaluation and attaches what it recorded
+func withFreshReference(sc *Scenario) *Scenario {
+	if sc.GWMode == 1 || sc.WeatherFault != "" {
+		return sc
+	}
+	probe := &monForceFresh{rec: map[int]*freshRec{}}
+	c := cloneScenario(sc)
+	c.Inject = nil
+	res := runScenario(c, []Monitor{probe}, "")
+	if res.Status == "ok" && len(probe.rec) > 0 {
+		sc.freshRef = probe.rec
+	}
+	return sc
+}
+
 type monC15 struct {
 	hist     map[float64]paramVec
 	recurred bool
@@ -320,6 +365,26 @@ func (m *monC15) Event(ev *hermes.VerifEvent, rc *RunCtx) {
 		}
 		m.lastGRW = g.GRW
 		cur := paramVec{W: g.W, WMIN: g.WMIN, PORGES: g.PORGES, WNOR: g.WNOR, WRED: g.WRED, zeit: ev.Zeit, initial: m.changes == 0}
+		// reference run with a forced re-evaluation on every day: same level, same day => same parameters
+		if fr := rc.Sc.freshRef[ev.Zeit]; fr != nil {
+			rc.Cov("days_compared_with_forced_reevaluation", 1)
+			for z := 0; z < g.N; z++ {
+				if fr.p.W[z] != cur.W[z] || fr.p.WMIN[z] != cur.WMIN[z] || fr.p.PORGES[z] != cur.PORGES[z] || fr.p.WNOR[z] != cur.WNOR[z] {
+					sig := "parameters_differ_from_forced_reevaluation"
+					if m.changes == 0 && fr.p.WMIN[z] == cur.WMIN[z] && fr.p.PORGES[z] == cur.PORGES[z] {
+						sig = "initial_gw_parameters_inconsistent" // as set up by the input module, before the first change of the level (F18)
+					}
+					rc.Violate("C15", sig, fmt.Sprintf("groundwater at %.6g dm: layer %d runs with FC %.6g WP %.6g PS %.6g, a run that re-evaluates the parameters from scratch every day has FC %.6g WP %.6g PS %.6g for the same day", g.GRW, z+1, cur.W[z], cur.WMIN[z], cur.PORGES[z], fr.p.W[z], fr.p.WMIN[z], fr.p.PORGES[z]), ev.Zeit, z+1, nil)
+					break
+				}
+			}
+			if m.changes > 0 && math.Abs(fr.p.WRED-cur.WRED) > 1e-12 {
+				rc.Violate("C15", "threshold_differs_from_forced_reevaluation", fmt.Sprintf("groundwater at %.6g dm: mineralisation threshold %.6g, a run that re-evaluates the parameters every day has %.6g", g.GRW, cur.WRED, fr.p.WRED), ev.Zeit, 1, nil)
+			}
+			if m.changes > 0 && fr.izm != g.IZM {
+				rc.Violate("C15", "mineralisation_depth_differs_from_forced_reevaluation", fmt.Sprintf("groundwater at %.6g dm: the mineralisation depth set by the parameter lookup is %d cm, a run that re-evaluates the parameters every day has %d cm", g.GRW, g.IZM, fr.izm), ev.Zeit, 0, nil)
+			}
+		}
 		if old, ok := m.hist[g.GRW]; ok {
 			if old.zeit != ev.Zeit-1 {
 				m.recurred = true
